@@ -229,7 +229,7 @@ pub fn c08_sweep(tier: Tier) -> (Acc, Value) {
         Tier::Quick => 6,
         Tier::Thorough => 8,
     };
-    let alphabet = ["a", "A", "1", "-", "_", ".", "É", "ǅ"];
+    let alphabet = ["a", "A", "1", "-", "_", ".", "é", "É", "ǅ"];
     let short = for_all_short(&alphabet, n, |s, acc| {
         if s.is_empty() {
             return;
@@ -554,4 +554,113 @@ pub fn c18_sweep(tier: Tier) -> (Acc, Value) {
     let sc_n = sc.evals;
     total.merge(sc);
     (total, json!({"engine": "E-sweep", "combined_name_alphabet": alphabet, "max_len": n, "short_cases": short_n, "scalar_cases": sc_n}))
+}
+
+// ------------------------------------------------------------------------------------------------
+// C13 — the four built-in type parameters through the builder
+
+#[derive(PartialEq, Debug)]
+enum FlavorOutcome {
+    Built(Obs, String),
+    Refused(Option<ErrClass>, String),
+}
+
+struct GrabOutcome(Option<FlavorOutcome>);
+impl WithPurl for GrabOutcome {
+    fn ok<T: Flavor>(&mut self, _f: &'static str, p: &purl::GenericPurl<T>, _acc: &mut Acc) {
+        self.0 = Some(FlavorOutcome::Built(observe(p), p.to_string()));
+    }
+    fn refused(&mut self, _f: &'static str, c: Option<ErrClass>, t: &str, _acc: &mut Acc) {
+        self.0 = Some(FlavorOutcome::Refused(c, t.to_owned()));
+    }
+}
+
+pub fn c13_flavor_case(spec: &BuildSpec, acc: &mut Acc) {
+    acc.evals += 1;
+    let case = json!({"engine": "c13-flavors", "spec": spec.to_json()});
+    let r = guarded(|| {
+        let mut first: Option<(&str, FlavorOutcome)> = None;
+        for fl in ["String", "CowOwned", "CowBorrowed", "SmallString"] {
+            #[cfg(not(feature = "smart"))]
+            if fl == "SmallString" {
+                continue;
+            }
+            let mut g = GrabOutcome(None);
+            build_flavor(fl, spec, acc, &mut g);
+            let Some(out) = g.0 else { continue };
+            match &first {
+                None => {
+                    acc.sig(&(matches!(out, FlavorOutcome::Built(..)), spec.ty.len().min(3)));
+                    if let FlavorOutcome::Built(o, _) = &out {
+                        if o.ty != spec.ty.to_ascii_lowercase() {
+                            acc.violate(Violation { prop: "C13", kind: "type-not-lowercased".into(), case: case.clone(), detail: format!("{fl}: type {:?} came out as {:?}", spec.ty, o.ty) });
+                        }
+                        acc.accepted += 1;
+                    } else {
+                        acc.rejected += 1;
+                    }
+                    first = Some((fl, out));
+                },
+                Some((f0, o0)) => {
+                    if *o0 != out {
+                        acc.violate(Violation { prop: "C13", kind: "builder-flavors-differ".into(), case: case.clone(), detail: format!("{f0} gives {:?}, {fl} gives {:?}", o0, out) });
+                    }
+                },
+            }
+        }
+    });
+    if let Err(m) = r {
+        acc.violate(Violation { prop: "C06", kind: "panic".into(), case, detail: m });
+    }
+    acc.nontrivial += 1;
+}
+
+pub fn c13_sweep(tier: Tier) -> (Acc, Value) {
+    let rich = |ty: &str| BuildSpec { ty: ty.to_owned(), ns: "A/b".into(), name: "N".into(), version: "1".into(), quals: vec![("K".into(), "v".into())], subpath: "s".into() };
+    // every scalar value as a one-character type and after a letter
+    let mut total = for_all_scalars(|c, acc| {
+        c13_flavor_case(&spec_with(&c.to_string(), 1, "n"), acc);
+        c13_flavor_case(&rich(&format!("a{c}")), acc);
+    });
+    let scalars = total.evals;
+    // all ASCII pairs as type
+    let pairs = par_items(128, threads(), |a, acc| {
+        for b in 0..128u8 {
+            let ty: String = [a as u8 as char, b as char].iter().collect();
+            c13_flavor_case(&spec_with(&ty, 1, "n"), acc);
+        }
+    });
+    let npairs = pairs.evals;
+    total.merge(pairs);
+    // short type strings over letters at the edges of the ASCII ranges, digits, specials, an invalid and a non-ASCII character
+    let n = if tier == Tier::Quick { 4 } else { 5 };
+    let alphabet = ["a", "z", "A", "Z", "m", "M", "9", ".", "+", "-", "!", "É"];
+    let short = for_all_short(&alphabet, n, |s, acc| {
+        c13_flavor_case(&rich(s), acc);
+        if s == "Zip" {
+            acc.sample(|| json!({"type": s}));
+        }
+    });
+    let nshort = short.evals;
+    total.merge(short);
+    // field values: all pairs of fields over the builder value universe, four type strings
+    let u = crate::m_builder::UNIVERSE;
+    let fields = par_items(u.len(), threads(), |a, acc| {
+        for b in 0..u.len() {
+            for (fi, fj) in [(0usize, 1usize), (0, 2), (0, 3), (1, 2), (1, 3), (2, 3)] {
+                for ty in ["t", "T.1+x-Z", "", "é"] {
+                    for q in [vec![], vec![("K".to_owned(), u[b].to_owned())], vec![("checksum".to_owned(), "B:FF,a:0A".to_owned())], vec![("!".to_owned(), "v".to_owned())]] {
+                        let mut f = ["", "a", "", ""];
+                        f[fi] = u[a];
+                        f[fj] = u[b];
+                        let spec = BuildSpec { ty: ty.to_owned(), ns: f[0].into(), name: f[1].into(), version: f[2].into(), quals: q, subpath: f[3].into() };
+                        c13_flavor_case(&spec, acc);
+                    }
+                }
+            }
+        }
+    });
+    let nfields = fields.evals;
+    total.merge(fields);
+    (total, json!({"engine": "E-sweep", "flavors": ["String", "Cow::Owned", "Cow::Borrowed", "SmallString"], "scalar_type_cases": scalars, "ascii_pair_types": npairs, "short_type_alphabet": alphabet, "short_type_max_len": n, "short_type_cases": nshort, "field_pair_cases": nfields}))
 }
